@@ -20,7 +20,7 @@ from qce_circuit.addon_stim import to_stim  # noqa: E402
 
 T1 = {1: 10e-6, 2: 37e-6, 3: 90e-6}
 T2 = {1: 20e-6, 2: 53e-6, 3: 11e-6}
-AE = {1: 0.01, 2: 0.05, 3: 0.002}
+AE = {1: 0.01, 2: 0.05, 3: 0.002, 4: 0.0}
 TWO = ('CZ', 'CX', 'CNOT', 'CY', 'SWAP')
 NONE = ('TICK', 'DETECTOR', 'OBSERVABLE_INCLUDE', 'SHIFT_COORDS', 'QUBIT_COORDS')
 
@@ -39,6 +39,7 @@ def formula(t, t1, t2):
 
 
 SETTINGS = [
+    {'name': 'zero-override', 'durs': {'M': 300e-9, 'CZ': 40e-9, 'H': 25e-9, 'X': 22e-9}, 'default': (1, 2, 2), 'individual': {'D1': (2, 1, 4), 'Z1': (1, 1, 1)}, 'index_map': {1: 'D1', 0: 'Z1', 2: 'D1'}},
     {'name': 'same-durations-other-T', 'durs': {'M': 500e-9, 'CZ': 60e-9, 'H': 20e-9, 'X': 21e-9}, 'default': (2, 3, 2), 'individual': {'D1': (3, 1, 1)}, 'index_map': {0: 'D1'}},
     {'name': 'default-like', 'durs': {'M': 500e-9, 'CZ': 60e-9, 'H': 20e-9, 'X': 21e-9}, 'default': (1, 1, 1), 'individual': {}, 'index_map': {}},
     {'name': 'per-qubit', 'durs': {'M': 400e-9, 'CZ': 700e-9, 'H': 30e-9, 'X': 45e-9}, 'default': (1, 2, 1),
